@@ -5,6 +5,7 @@ import (
 	"fmt"
 	"math/rand"
 	"os"
+	"path/filepath"
 	"regexp"
 	"regexp/syntax"
 	"strings"
@@ -143,6 +144,19 @@ func oracleC02CLI(p *Pair, env *Env, a [][]byte) *Failure {
 		return &Failure{What: "printed regex cannot be pasted between the quotes of a SecRule line: " + msg, Finding: finding,
 			Detail: fmt.Sprintf("program %q\nstdout %q", a[6], c.stdout)}
 	}
+	// the second observation point: the operand `regex update` writes into the rules file is that regex, byte for byte,
+	// between the quotes it found there (and the rest of the file is as it was)
+	before := "# header\n\nSecRule ARGS|REQUEST_COOKIES \"@rx old(?:operand)$\" \\\n    \"id:942100,\\\n    phase:2,\\\n    t:none\"\n"
+	_ = os.MkdirAll(filepath.Join(sb, "rules"), 0o755)
+	_ = os.WriteFile(filepath.Join(sb, "rules", "REQUEST-942-APPLICATION-ATTACK-SQLI.conf"), []byte(before), 0o644)
+	_ = os.WriteFile(filepath.Join(sb, "regex-assembly", "942100.ra"), a[6], 0o644)
+	u := runCLI(env, sb, nil, "-l", "disabled", "regex", "update", "942100")
+	now, _ := os.ReadFile(filepath.Join(sb, "rules", "REQUEST-942-APPLICATION-ATTACK-SQLI.conf"))
+	want := strings.Replace(before, "old(?:operand)$", string(gr.Out[0]), 1)
+	if u.exit != 0 || string(now) != want {
+		return &Failure{What: "the operand written by `regex update` is not the generated regex between the quotes of the SecRule line",
+			Detail: fmt.Sprintf("program %q\nregex %q\nexit %d\nrules file %q\nexpected   %q", a[6], gr.Out[0], u.exit, now, want)}
+	}
 	return nil
 }
 
@@ -208,7 +222,9 @@ func genC02(r *rand.Rand, tier string, env *Env) []Case {
 	}
 	// characters that mean something to the output path rather than to the regex: printf verbs, shell and terminal bytes
 	empty := [][]byte{{}, {}, {}, {}, {}, {}}
-	for _, prog := range []string{"a%\"b\n", "100%\\.\n", "%\\\\\n", "%d%s%v\n", "%!x(MISSING)\n", "%%\n100%\n", "a%\nb%\"\n", "%[1]d\n", "\\%\n", "$HOME`x`\n", "a\x1b[0mb\n", "%-5s|%+d\n"} {
+	for _, prog := range []string{"a%\"b\n", "100%\\.\n", "%\\\\\n", "%d%s%v\n", "%!x(MISSING)\n", "%%\n100%\n", "a%\nb%\"\n", "%[1]d\n", "\\%\n", "$HOME`x`\n", "a\x1b[0mb\n", "%-5s|%+d\n",
+		// … and to a replacement template: `$1`, `$name`, `${name}` after a backslash, at the end, before a quote
+		"\\$1x\n", "\\$_get\n\\$_post\n", "\\$home\"\n", "a\\${1}b\n", "[\\$0-9a-z]+\n", "x\\$$\n", "\\$1\n\\$2\n", "$1\n"} {
 		args := append(append([][]byte{}, empty...), []byte(prog))
 		cases = append(cases, Case{Kind: "output-path", Ops: []Op{{"gen.run", args}}, Oracles: []Op{{"c02.lexical", args}, {"c02.cli", args}}})
 	}
